@@ -454,8 +454,11 @@ class Context:
 
     def _create_error_constructor(self, error_name: str) -> JSCallableObject:
         """Create an Error constructor (Error, TypeError, SyntaxError, etc.)."""
-        # Add prototype first so it can be captured in closure
-        error_prototype = JSObject()
+        # Add prototype first so it can be captured in closure.
+        # TypeError.prototype etc. inherit from Error.prototype (created first), so
+        # that `e instanceof Error` holds for every kind of error
+        base = self._globals.get("Error")
+        error_prototype = JSObject(base.get("prototype") if base is not None else None)
         error_prototype.set("name", error_name)
         error_prototype.set("message", "")
 
